@@ -563,6 +563,46 @@ func (tr *taskRunner) hist(c *taskCfg, spans [][2]int) {
 	}
 }
 
+// histNow: BatchQueries(start, zero time): the span ends at the wall clock.  Model
+// time is seconds from an epoch a whole number of minutes in the past; the
+// driver logs the whole second before and after each call.
+func (tr *taskRunner) histNow(c *taskCfg) {
+	task := tr.newTask(c)
+	et, err := kapacitor.NewExecutingTask(tr.env.TM, task)
+	if err != nil {
+		rt.Fatalf("NewExecutingTask: %v\n%s", err, c.script())
+	}
+	t := tr.t
+	t0 := time.Now().Truncate(time.Minute).Add(-60 * time.Second)
+	tmN := rt.TimeMap{Epoch: t0.Add(-600 * time.Second), Unit: time.Second}
+	en := encMap(tmN)
+	floorK := func(x time.Time) int { return int(x.Sub(tmN.Epoch) / time.Second) }
+	t.Reset(rt.M{"kind": "task", "script": c.script()})
+	t.Event("Task", rt.M{"cfg": c.J(), "err": ""})
+	per := c.Every
+	if c.Kind == "cron" {
+		per = c.P
+	}
+	for ph := 0; ph < per; ph++ {
+		before := time.Now()
+		bqs, err := et.BatchQueries(tmN.T(600+ph), time.Time{})
+		after := time.Now()
+		t.Event("Hist", rt.M{"start": 600 + ph, "stop_lo": floorK(before), "stop_hi": floorK(after)})
+		items := []any{}
+		if err != nil {
+			t.Event("HistRet", rt.M{"err": err.Error(), "qs": items})
+			continue
+		}
+		for _, bq := range bqs {
+			for _, q := range bq.Queries {
+				items = append(items, histItem(q, tmN, en, time.Second))
+			}
+		}
+		t.Event("HistRet", rt.M{"err": "", "qs": items})
+	}
+	t.Distinct(fmt.Sprintf("now|%v", c.J()))
+}
+
 // live: start the task the way the task store does (StartTask, then
 // StartBatching), let the real ticker run against the fake InfluxDB client
 // until `want` queries arrived, stop it, and record what was issued.
@@ -789,6 +829,25 @@ func runTasks(r *rt.Run, t *rt.Trace) error {
 		}
 		tr.hist(c, sp)
 	}
+	// span ending at the wall clock (stop time zero)
+	nNow := 0
+	for _, al := range []bool{false, true} {
+		for _, of := range []int{0, 3, 13} {
+			c := mk()
+			c.Every, c.Align, c.Period, c.Offset = 10, al, 10, of
+			c.Where = leafFix(wheres[1])
+			tr.histNow(c)
+			nNow++
+		}
+	}
+	{
+		c := mk()
+		c.Kind, c.P, c.R, c.Period, c.Offset = "cron", 15, 3, 7, 2
+		c.Where = leafFix(wheres[1])
+		tr.histNow(c)
+		nNow++
+	}
+	r.Extra["task_traces_until_now"] = nNow
 	// the real tickers (wall clock, milliseconds): timing-robust facts only
 	nLive := 0
 	for _, al := range []bool{false, true} {
